@@ -41,6 +41,10 @@ fn process_crtr_block<H: Host>(_: &mut Emulator<H>, block_data: &[u8]) {
 
 // Process ZXSTZ80REGS (Z80R) block
 fn process_z80r_block<H: Host>(emulator: &mut Emulator<H>, block_data: &[u8]) {
+    // Drop state of the previously executed code (e.g. pending prefix), halt and EI
+    // state are set from the `chFlags` below
+    emulator.cpu.reset_control_state();
+
     // AF
     emulator
         .cpu
